@@ -59,7 +59,7 @@ def contract(v, a, b, r):
 
 
 class StepEnv:
-    def __init__(self, run, nmoves, kind, ply_concrete=None):
+    def __init__(self, run, nmoves, kind, ply_concrete=None, abortable=False, limits=None):
         """kind: 'alpha_beta' | 'quiescence' | 'root'"""
         self.run, self.kind, self.n = run, kind, nmoves
         A.INT_MODE[0] = True
@@ -77,8 +77,12 @@ class StepEnv:
         self.v = [z3.Int('v_child_%d' % i) for i in range(len(n0['children']))]     # true values of the children (their own point of view)
         self.q = z3.Int('q_node')           # true quiescence value of the node itself (used when alpha_beta drops into quiescence)
         self.calls = []
+        self.abortable = abortable
+        self.limits = limits
         self.ex = run.executor()
         self.env = {'cache': False}
+        if abortable:
+            self.env['stop'] = 'any'
         A.install(self.ex, self.G, self.env)
         self.ex.int_types = {'i16'}
         self.pre = list(self.G.pre)
@@ -97,7 +101,7 @@ class StepEnv:
         base = sp.path
         k = self.rctr
         nn = z3.BitVec('nodes_after_%d' % k, 64)
-        ctx.ex.assume(z3.ULT(nn, 1 << 62))
+        ctx.ex.assume(z3.ULT(nn, 1 << 50))
         ctx.ex.store_to(ctx.st, sp.root, base + (('f', 4), ('f', 2)), nn)
         ctx.ex.store_to(ctx.st, sp.root, base + (('f', 4), ('f', 4)), z3.BitVec('seldepth_after_%d' % k, 8))
         ctx.ex.store_to(ctx.st, sp.root, base + (('f', 4), ('f', 5)), UniformRows(fresh_killer_row()))
@@ -123,7 +127,21 @@ class StepEnv:
                 self.calls.append({'which': which, 'node': node, 'a': A_, 'b': B_, 'depth': depth, 'guard': ctx.st.guard, 'r': r,
                                    'ply': S[4][3]})
                 ex.assume(z3.And(r >= MIN16, r <= MAX16))
-                ex.assume(z3.Implies(z3.And(A_ < B_, A_ >= MIN16 + 1), contract(v, A_, B_, r)))
+                ok_window = z3.And(A_ < B_, A_ >= MIN16 + 1)
+                if self.abortable:
+                    # the nested search may be cut short (stop / node budget / clock): it then returns 0, the cut is
+                    # sticky (modelled by clearing the running flag) and a ghost cell remembers that something below was cut
+                    ab = z3.Bool('aborted_%d' % self.rctr)
+                    self.calls[-1]['aborted'] = ab
+                    ex.assume(z3.Implies(z3.And(ok_window, z3.Not(ab)), contract(v, A_, B_, r)))
+                    cell = S[0]
+                    cur = ctx.deref(cell)
+                    ctx.write(cell, ('atomic', b_and(cur[1], b_not(ab))))
+                    g = ctx.ex.load(ctx.st, ('G', 'aborted_below'), ())
+                    ctx.ex.store_to(ctx.st, ('G', 'aborted_below'), (), b_or(g, ab))
+                    self._havoc(ctx, sp)
+                    return z3.If(ab, z3.IntVal(0), r)
+                ex.assume(z3.Implies(ok_window, contract(v, A_, B_, r)))
                 self._havoc(ctx, sp)
                 return r
             return f
@@ -133,9 +151,10 @@ class StepEnv:
     def search_value(self, st):
         ex = self.ex
         run_cell = ex.alloc(st, ('atomic', True))
-        lim = tuple([NONE] * 8)
+        st.store[('G', 'aborted_below')] = False
+        lim = self.limits if self.limits is not None else tuple([NONE] * 8)
         n0 = z3.BitVec('nodes0', 64)
-        ex.assume(z3.ULT(n0, 1 << 62))      # node counter far from wrapping (stated bound)
+        ex.assume(z3.ULT(n0, 1 << 50))      # node counter far from wrapping (stated bound; nodes * 1000 is computed for the nps field)
         info = (NONE, NONE, n0, self.ply, z3.BitVec('seldepth0', 8), UniformRows(fresh_killer_row()))
         return (run_cell, self.G.board_value(0), self.G.board_value(0), lim, info)
 
